@@ -3,7 +3,9 @@
   match lies inside the input.
 -/
 import GojaModel.C20.Ref
+import GojaModel.C20.Lemmas
 namespace GojaModel.C20.Ref
+open GojaModel.C20
 
 def emptyNode : Node := .seq []
 
@@ -503,6 +505,72 @@ theorem refFind_none_up (o : Opts) (inp : Array Nat) (ncaps : Nat) (node : Node)
       simp only [refFind]
       rw [show inp.size + 2 = (inp.size + 1) + 1 from rfl, findFrom_step]
       simp [this]
+
+
+
+/-! ### the reference matcher as an engine (`Finder`) -/
+
+/-- a reference match as an engine result (code-unit mode: input positions are UTF-16 indices) -/
+def toMatchR (j : Nat) (st : St) : MatchR :=
+  { idx := [Int.ofNat j, Int.ofNat st.pos] ++ (st.caps.drop 1).flatMap (fun c => match c with
+      | some (a, b) => [Int.ofNat a, Int.ofNat b]
+      | none => [-1, -1]),
+    names := none }
+
+theorem toMatchR_start (j : Nat) (st : St) : (toMatchR j st).start = j := by
+  simp [toMatchR, MatchR.start]
+
+theorem toMatchR_stop (j : Nat) (st : St) : (toMatchR j st).stop = st.pos := by
+  simp [toMatchR, MatchR.stop]
+
+/-- the reference matcher as a `Finder` over a subject given as UTF-16 code units (no u flag) -/
+def refFinderCU (o : Opts) (ncaps : Nat) (node : Node) (units : List Nat) : Finder :=
+  fun i => (refFind o units.toArray ncaps node i).map (fun p => toMatchR p.1 p.2)
+
+theorem refFinderCU_leftmost (o : Opts) (ncaps : Nat) (node : Node) (units : List Nat) :
+    Leftmost (refFinderCU o ncaps node units) units.length := by
+  have hsz : units.toArray.size = units.length := by simp
+  constructor
+  · intro i r h
+    simp only [refFinderCU] at h
+    cases hf : refFind o units.toArray ncaps node i with
+    | none => rw [hf] at h; simp at h
+    | some p =>
+      rw [hf] at h; simp at h; subst h
+      obtain ⟨j, st⟩ := p
+      have := findFrom_bounds o units.toArray ncaps node _ i j st hf
+      rw [toMatchR_start]; exact this.1
+  · intro i r h
+    simp only [refFinderCU] at h
+    cases hf : refFind o units.toArray ncaps node i with
+    | none => rw [hf] at h; simp at h
+    | some p =>
+      rw [hf] at h; simp at h; subst h
+      obtain ⟨j, st⟩ := p
+      have := findFrom_bounds o units.toArray ncaps node _ i j st hf
+      rw [toMatchR_start, toMatchR_stop]
+      have h3 : st.pos ≤ units.toArray.size := this.2.2
+      have h4 : j ≤ st.pos := this.2.1
+      exact ⟨h4, by omega⟩
+  · intro i r j' h h1 h2
+    simp only [refFinderCU] at h ⊢
+    cases hf : refFind o units.toArray ncaps node i with
+    | none => rw [hf] at h; simp at h
+    | some p =>
+      rw [hf] at h; simp at h; subst h
+      obtain ⟨j, st⟩ := p
+      rw [toMatchR_start] at h2
+      have := refFind_stable o units.toArray ncaps node (j' - i) i j st hf (by omega)
+      rw [show i + (j' - i) = j' by omega] at this
+      rw [this]; rfl
+  · intro i j' h h1 _
+    simp only [refFinderCU] at h ⊢
+    cases hf : refFind o units.toArray ncaps node i with
+    | some p => rw [hf] at h; simp at h
+    | none =>
+      have := refFind_none_up o units.toArray ncaps node (j' - i) i hf
+      rw [show i + (j' - i) = j' by omega] at this
+      rw [this]; rfl
 
 
 end GojaModel.C20.Ref
